@@ -212,7 +212,11 @@ def classify(ctx, nt, seg, idx, name):
     """Best effort: which single deviation of the spec makes it accept the rejected event (scenario validated alone)?
     idx = 1-based index of the rejected event inside the scenario."""
     out = []
+    ev = seg[idx - 1] if 0 < idx <= len(seg) else {}
+    data_devs = ("DevPlaintextFallback", "DevDataBeforeKey", "DevSealAfterKeyWipe")
     for d in DEVS:
+        if (ev.get("ev") in ("Data", "Recv")) != (d in data_devs):
+            continue
         try:
             v = validate(ctx, nt, seg, name + "-" + d, dev=[d], invs="")
         except vf.Infra:
